@@ -339,6 +339,12 @@ def _run_unit(name: str, repo: str = '/repo', extra_args: List[str] = None, text
                 lab = s.get('label') or ''
                 if 'at this exit' in lab or 'at the end of the function body' in lab:
                     exit_text = normalise(text_from_span(lines, s))[:120]
+                elif 'failed this invariant' in lab:
+                    # an invariant / loop `ensures` that fails at a `break`: Verus points at the exit and labels the
+                    # clause; name the obligation by the clause, keep the exit
+                    exit_text = span_text[:120]
+                    span_text = normalise(text_from_span(lines, s))
+                    line = s['line_start']
         o = linemap[line - 1] if 0 < line <= len(linemap) else None
         if o is None:
             origin = 'tmpl'
